@@ -21,6 +21,7 @@ type Int struct {
 	IsC    bool
 	C      uint64 // masked to W bits
 	Sym    string
+	Off    uint64 // symbolic value is Sym + Off (mod 2^W): keeps "base + constant" recognisable
 }
 
 type Bool struct {
@@ -88,6 +89,9 @@ func bvLit(w int, c uint64) string {
 func (i Int) T() string {
 	if i.IsC {
 		return bvLit(i.W, i.C)
+	}
+	if i.Off&mask(i.W) != 0 {
+		return "(bvadd " + i.Sym + " " + bvLit(i.W, i.Off) + ")"
 	}
 	return i.Sym
 }
@@ -235,7 +239,7 @@ func iIte(c Bool, a, b Int) Int {
 	if a.IsC && b.IsC && a.C == b.C {
 		return a
 	}
-	if !a.IsC && !b.IsC && a.Sym == b.Sym {
+	if !a.IsC && !b.IsC && a.Sym == b.Sym && a.Off&mask(a.W) == b.Off&mask(b.W) {
 		return a
 	}
 	return symInt(a.W, a.Signed, "(ite "+c.Sym+" "+a.T()+" "+b.T()+")")
@@ -308,15 +312,29 @@ func iBin(op string, a, b Int) Int {
 	// algebraic identities that keep terms small
 	switch op {
 	case "+":
-		if a.IsC && a.C == 0 {
-			return b
+		if a.IsC {
+			r := b
+			r.Off = (b.Off + a.C) & mask(w)
+			r.W, r.Signed = w, sg
+			return r
 		}
-		if b.IsC && b.C == 0 {
-			return a
+		if b.IsC {
+			r := a
+			r.Off = (a.Off + b.C) & mask(w)
+			return r
 		}
+		return Int{W: w, Signed: sg, Sym: "(bvadd " + a.Sym + " " + b.Sym + ")", Off: (a.Off + b.Off) & mask(w)}
 	case "-":
-		if b.IsC && b.C == 0 {
-			return a
+		if b.IsC {
+			r := a
+			r.Off = (a.Off - b.C) & mask(w)
+			return r
+		}
+		if !a.IsC {
+			if a.Sym == b.Sym {
+				return mkInt(w, sg, a.Off-b.Off)
+			}
+			return Int{W: w, Signed: sg, Sym: "(bvsub " + a.Sym + " " + b.Sym + ")", Off: (a.Off - b.Off) & mask(w)}
 		}
 	case "*":
 		if a.IsC && a.C == 1 {
@@ -371,14 +389,14 @@ func iNeg(a Int) Int {
 	if a.IsC {
 		return mkInt(a.W, a.Signed, -a.C)
 	}
-	return symInt(a.W, a.Signed, "(bvneg "+a.Sym+")")
+	return symInt(a.W, a.Signed, "(bvneg "+a.T()+")")
 }
 
 func iNot(a Int) Int {
 	if a.IsC {
 		return mkInt(a.W, a.Signed, ^a.C)
 	}
-	return symInt(a.W, a.Signed, "(bvnot "+a.Sym+")")
+	return symInt(a.W, a.Signed, "(bvnot "+a.T()+")")
 }
 
 // iConv converts to another integer type.
@@ -390,15 +408,15 @@ func iConv(a Int, w int, signed bool) Int {
 		return mkInt(w, signed, a.C)
 	}
 	if w == a.W {
-		return symInt(w, signed, a.Sym)
+		return Int{W: w, Signed: signed, Sym: a.Sym, Off: a.Off}
 	}
 	if w < a.W {
-		return symInt(w, signed, fmt.Sprintf("((_ extract %d 0) %s)", w-1, a.Sym))
+		return Int{W: w, Signed: signed, Sym: fmt.Sprintf("((_ extract %d 0) %s)", w-1, a.Sym), Off: a.Off & mask(w)}
 	}
 	if a.Signed {
-		return symInt(w, signed, fmt.Sprintf("((_ sign_extend %d) %s)", w-a.W, a.Sym))
+		return symInt(w, signed, fmt.Sprintf("((_ sign_extend %d) %s)", w-a.W, a.T()))
 	}
-	return symInt(w, signed, fmt.Sprintf("((_ zero_extend %d) %s)", w-a.W, a.Sym))
+	return symInt(w, signed, fmt.Sprintf("((_ zero_extend %d) %s)", w-a.W, a.T()))
 }
 
 // iShift: a << n or a >> n where n already has the unsigned magnitude semantics
@@ -446,17 +464,17 @@ func iShift(left bool, a, n Int) Int {
 				f = "bvlshr"
 			}
 		}
-		return symInt(w, a.Signed, "("+f+" "+a.Sym+" "+bvLit(w, cnt)+")")
+		return symInt(w, a.Signed, "("+f+" "+a.T()+" "+bvLit(w, cnt)+")")
 	}
 	// symbolic count: bring to width w with saturation
 	var cnt string
 	switch {
 	case n.W == w:
-		cnt = n.Sym
+		cnt = n.T()
 	case n.W < w:
-		cnt = fmt.Sprintf("((_ zero_extend %d) %s)", w-n.W, n.Sym)
+		cnt = fmt.Sprintf("((_ zero_extend %d) %s)", w-n.W, n.T())
 	default:
-		cnt = fmt.Sprintf("(ite (bvuge %s %s) %s ((_ extract %d 0) %s))", n.Sym, bvLit(n.W, uint64(w)), bvLit(w, uint64(w)), w-1, n.Sym)
+		cnt = fmt.Sprintf("(ite (bvuge %s %s) %s ((_ extract %d 0) %s))", n.T(), bvLit(n.W, uint64(w)), bvLit(w, uint64(w)), w-1, n.T())
 	}
 	f := "bvshl"
 	if !left {
@@ -508,11 +526,20 @@ func iCmp(op string, a, b Int) Bool {
 		return mkBool(r)
 	}
 	if !a.IsC && !b.IsC && a.Sym == b.Sym {
+		same := a.Off&mask(a.W) == b.Off&mask(b.W)
 		switch op {
-		case "==", "<=", ">=":
-			return mkBool(true)
+		case "==":
+			return mkBool(same)
+		case "!=":
+			return mkBool(!same)
+		case "<=", ">=":
+			if same {
+				return mkBool(true)
+			}
 		default:
-			return mkBool(false)
+			if same {
+				return mkBool(false)
+			}
 		}
 	}
 	x, y := a.T(), b.T()
@@ -646,9 +673,9 @@ func iToF(a Int) Float {
 	}
 	cp := a
 	if a.Signed {
-		return Float{Sym: "((_ to_fp 11 53) RNE " + a.Sym + ")", FromInt: &cp}
+		return Float{Sym: "((_ to_fp 11 53) RNE " + a.T() + ")", FromInt: &cp}
 	}
-	return Float{Sym: "((_ to_fp_unsigned 11 53) RNE " + a.Sym + ")", FromInt: &cp}
+	return Float{Sym: "((_ to_fp_unsigned 11 53) RNE " + a.T() + ")", FromInt: &cp}
 }
 
 // float64 -> signed/unsigned int of width w, amd64 semantics for int64.
@@ -716,7 +743,7 @@ func wideFromInt(a Int) Wide {
 		return mkWide(new(big.Int).SetUint64(a.C))
 	}
 	if a.Signed {
-		return Wide{Sym: fmt.Sprintf("((_ sign_extend %d) %s)", wideW-a.W, a.Sym), Bits: a.W}
+		return Wide{Sym: fmt.Sprintf("((_ sign_extend %d) %s)", wideW-a.W, a.T()), Bits: a.W}
 	}
-	return Wide{Sym: fmt.Sprintf("((_ zero_extend %d) %s)", wideW-a.W, a.Sym), Bits: a.W + 1}
+	return Wide{Sym: fmt.Sprintf("((_ zero_extend %d) %s)", wideW-a.W, a.T()), Bits: a.W + 1}
 }
